@@ -140,7 +140,13 @@ def load_registered_codemods(ep_filter: Optional[Callable[[EntryPoint], bool]] =
     registry = CodemodRegistry()
     logger.debug("loading registered codemod collections")
 
-    for entry_point in set(entry_points().select(group="codemods")):
+    # a set removes duplicate registrations; sort it so that the registry order (the
+    # default execution order and the order of wildcard matches) does not depend on
+    # the hash seed
+    for entry_point in sorted(
+        set(entry_points().select(group="codemods")),
+        key=lambda ep: (ep.name, ep.value),
+    ):
         if ep_filter and not ep_filter(entry_point):
             logger.debug(
                 '- skipping codemod collection "%s" from "%s as requested"',
